@@ -77,6 +77,9 @@ func TestC05AcceptAndContinuity(t *testing.T) {
 			nt.link(c, a)
 		}
 		const window = 300 * time.Millisecond
+		// liveness is judged only where the outcome is unambiguous (see below); only those Sends are patient
+		judgedLive := pa.fn(kB) && pb.fn(kA) && !loseRespDone && !idleExpiry &&
+			!((intruder == "before" || intruder == "during") && (pa.fn(kC) || (strings.Contains(initiators, "A") && pc.fn(kA))))
 		results := map[string]error{}
 		var rmu sync.Mutex
 		var wg sync.WaitGroup
@@ -85,7 +88,12 @@ func TestC05AcceptAndContinuity(t *testing.T) {
 			go func() {
 				defer wg.Done()
 				time.Sleep(delay)
-				err := n.send(tag, window)
+				var err error
+				if judgedLive && n != c {
+					err = n.send(tag, window)
+				} else {
+					err = n.sendImpatient(tag, window) // failure is an allowed outcome here
+				}
 				rmu.Lock()
 				results[n.name+"/"+tag] = err
 				rmu.Unlock()
